@@ -77,15 +77,25 @@ StateWhy(v, p, rp) ==
 (* cursor scripts *)
 
 \* the records a reader of section s walks (positions in the decoded section)
+\* the EDNS options of the OPT record (the pseudo-section "E" an EDNS reader walks)
+EdnsOpts(p) == LET m == DecodeT(p) IN IF HasOpt(m) THEN OptExt(p, OptOf(m).name_end + 10, OptOf(m).next, <<>>) ELSE <<>>
+
 Walked(p, s, incl) ==
   LET m == DecodeT(p) IN
-  IF s = "Q" THEN [i \in 1..Len(m.q) |-> i]
+  IF s = "E" THEN [i \in 1..Len(EdnsOpts(p)) |-> i]
+  ELSE IF s = "Q" THEN [i \in 1..Len(m.q) |-> i]
   ELSE LET rs == SecOf(m, s) IN
        IF s = "AR" /\ ~incl THEN SelectSeq([i \in 1..Len(rs) |-> i], LAMBDA i : rs[i].type # TOPT)
        ELSE [i \in 1..Len(rs) |-> i]
 
 \* the cursor observation o designates record idx of section s in bytes p
 Designates(o, p, s, idx) ==
+  IF s = "E" THEN
+       LET os == EdnsOpts(p) IN
+       /\ ~o.tomb /\ idx >= 1 /\ idx <= Len(os)
+       /\ o.off = os[idx].off /\ o.name_end = os[idx].off /\ o.next = os[idx].next
+       /\ o.type = os[idx].code /\ o.class = os[idx].len /\ o.raw = SubSeq(p, os[idx].off + 1, os[idx].next)
+  ELSE
   LET m == DecodeT(p)  rs == SecOf(m, s) IN
   /\ ~o.tomb /\ idx >= 1 /\ idx <= Len(rs)
   /\ o.off = rs[idx].off /\ o.name_end = rs[idx].name_end /\ o.next = rs[idx].next
@@ -119,6 +129,10 @@ SubsWhy(subs, k, st, s, incl, strict) ==
        ELSE IF Len(u.bytes) < 12 THEN "after " \o u.s \o " the object no longer holds a packet"
        ELSE IF ~Structural(u.bytes) THEN "after " \o u.s \o " the bytes are no longer acceptable: " \o WhyNot(WithQ(WithQR(u.bytes)))
        ELSE IF ViewWhy(u.view, u.bytes) # "" THEN "after " \o u.s \o ": " \o ViewWhy(u.view, u.bytes)
+       ELSE IF u.res = "na" THEN        \* the operation does not exist for this kind of cursor
+            (IF ~unchanged THEN "the message changed although nothing was done"
+             ELSE IF ~stay THEN "the cursor moved although nothing was done"
+             ELSE SubsWhy(subs, k + 1, next1, s, incl, strict))
        ELSE
        CASE u.s = "set_raw_name" ->
               IF st.idx = 0 THEN (IF u.res = "err" /\ unchanged /\ u.obs.tomb THEN SubsWhy(subs, k + 1, next1, s, incl, strict) ELSE "set_raw_name on a deleted record's cursor must fail and change nothing")
